@@ -1326,7 +1326,7 @@ async def _e2e_history(case, ctx=None, rows=None):
             if kind == "write":
                 P, accepted, rejected, notified = write_oracle(t, op, perms, log, r, raised, list(events))
                 P = _apply_terms(t, kind, terms, P, raised, ctx, ("false-success",))
-                if rows is not None and not P and (raised is None or t == "ble"):
+                if rows is not None and not P and (raised is None or t == "ble" or (t == "ip" and op.get("http") is not None)):
                     rows.append((t, op, perms, accepted, rejected, notified, r, raised, wire.replies[nrep:] if wire is not None else None))
             elif kind == "identify":
                 P = _apply_terms(t, kind, terms, identify_oracle(t, op, log, r, raised, list(events)), raised, ctx, ("identify-false-success",))
@@ -1594,7 +1594,7 @@ def wording_cases(ctx, rng):
 
 
 def e2e_streams(ctx, driver, rng):
-    cases, outs, lines = {"coapwrite-e2e": [], "blewrite-e2e": [], "ipwrite-e2e": [], "bleread-e2e": []}, {}, {}
+    cases, outs, lines = {"coapwrite-e2e": [], "blewrite-e2e": [], "ipwrite-e2e": [], "bleread-e2e": [], "ipwrite-http": []}, {}, {}
     for k in cases:
         outs[k], lines[k] = [], []
     sampled = set()
@@ -1676,6 +1676,14 @@ def e2e_streams(ctx, driver, rng):
                 if not replies or len(replies) != 1:
                     continue
                 code, body = replies[0]
+                if op.get("http") is not None and (body is None or (isinstance(body, dict) and "characteristics" in body and "status" not in body)):
+                    # the HTTP layer of the model (ipPutHttp: 4xx fails, 204 is success without a body, every other status line defers to the body)
+                    hk = "ipwrite-http"
+                    lines[hk].append(f"cl.ipputc {code} {keys_str([(i['aid'], i['iid']) for i in items if 'r' in perms[i['iid']]])} {'-' if body is None else J(body)}")
+                    outs[hk].append("failed" if raised is not None else f"{keys_str(notified)} | {canon_result(r)}")
+                    cases[hk].append({"stream": "e2e", "transport": tt, "layout": case["layout"], "ops": [op]})
+                if raised is not None:
+                    continue
                 if op.get("http") is not None:  # freely worded reply: the model sees what put_json hands on - nothing for 204, else the body if it lists characteristics
                     if code == 204:
                         body = None
